@@ -252,6 +252,9 @@ class DiagLinearOperator(TriangularLinearOperator):
             if not torch.all(self.diagonal() == 1):
                 raise RuntimeError("Received `unitriangular=True` but `LinearOperator` does not have a unit diagonal.")
             return rhs
+        if not left and rhs.dim() > 1:
+            # X A = R  ->  X = R / diag (column-wise)
+            return rhs / self._diag.unsqueeze(-2)
         return self.solve(right_tensor=rhs)
 
     def sqrt(self: Float[LinearOperator, "*batch M N"]) -> Float[LinearOperator, "*batch M N"]:
